@@ -74,11 +74,19 @@ func runC12(r *Run) {
 	type snap struct {
 		step int
 		reg  map[string]bool
-		onS  map[string]string // name -> server name
+		onS  map[string]string          // name -> server name
+		list map[string]map[string]bool // server -> names in its player list
 	}
 	var hist []snap
 	sample := func() {
-		s := snap{step: w.s.Steps, reg: map[string]bool{}, onS: map[string]string{}}
+		s := snap{step: w.s.Steps, reg: map[string]bool{}, onS: map[string]string{}, list: map[string]map[string]bool{}}
+		for _, sn := range []string{"lobby", "s2"} {
+			m := map[string]bool{}
+			if rs := w.p.Server(sn); rs != nil {
+				rs.Players().Range(func(p proxy.Player) bool { m[p.Username()] = true; return true })
+			}
+			s.list[sn] = m
+		}
 		for _, c := range w.clients {
 			if pl := w.p.PlayerByName(c.Name); pl != nil {
 				s.reg[c.Name] = true
@@ -167,8 +175,9 @@ func runC12(r *Run) {
 			}
 		})
 	}
-	why := w.s.RunUntil(30*time.Second, func() bool { return w.allClientsDone() && listersDone == nListers })
-	if why == "steps" {
+	const stepCap = 300000 // every step is sampled by the driver: keep a pathological run short
+	why := w.s.RunUntil(30*time.Second, func() bool { return (w.allClientsDone() && listersDone == nListers) || w.s.Steps > stepCap })
+	if why == "steps" || w.s.Steps > stepCap {
 		r.Inconclusive("step budget exhausted")
 		return
 	}
@@ -186,8 +195,18 @@ func runC12(r *Run) {
 		always, ever = map[string]bool{}, map[string]bool{}
 		first := true
 		minN, maxN = 1<<30, 0
+		lo, hi := c.inv-1, c.ret
+		for _, s := range hist { // widen to the nearest samples around the call
+			if s.step <= c.inv-1 {
+				lo = s.step
+			}
+			if s.step >= c.ret {
+				hi = s.step
+				break
+			}
+		}
 		for _, s := range hist {
-			if s.step < c.inv-1 || s.step > c.ret {
+			if s.step < lo || s.step > hi {
 				continue
 			}
 			m := f(s)
@@ -254,25 +273,18 @@ func runC12(r *Run) {
 				return
 			}
 		case "ServerPlayers":
-			always, ever, _, _ := during(c, func(s snap) map[string]bool {
-				m := map[string]bool{}
-				for n, srv := range s.onS {
-					if srv == c.server {
-						m[n] = true
-					}
-				}
-				return m
-			})
-			_ = always // the server list is updated around (not atomically with) CurrentServer: only ghosts are checked
+			always, ever, _, _ := during(c, func(s snap) map[string]bool { return s.list[c.server] })
+			got := map[string]bool{}
 			for _, n := range c.names {
-				regEver := false
-				for _, s := range hist {
-					if s.step >= c.inv-1 && s.step <= c.ret && s.reg[n] {
-						regEver = true
-					}
+				got[n] = true
+				if !ever[n] {
+					r.Fail("list-mixes-moments", "ServerPlayers-ghost", "%s.Players() (steps %d..%d) returned %q, who was in that server's list at no sampled moment around the call", c.server, c.inv, c.ret, n)
+					return
 				}
-				if !regEver && !ever[n] {
-					r.Fail("list-mixes-moments", "ServerPlayers-ghost", "%s.Players() (steps %d..%d) returned %q, who was not registered at any moment of the call", c.server, c.inv, c.ret, n)
+			}
+			for n := range always {
+				if !got[n] {
+					r.Fail("list-mixes-moments", "ServerPlayers-missing", "%s.Players() (steps %d..%d) returned %v but %q was in that server's list during the whole call", c.server, c.inv, c.ret, c.names, n)
 					return
 				}
 			}
